@@ -128,13 +128,23 @@ func (s *Schema) FileDescriptor(fileName, pkg, goPkg string) *descriptorpb.FileD
 	}
 	for _, x := range s.FileExt {
 		t, tn := s.typeRef(x.Kind, pkg)
-		fd.Extension = append(fd.Extension, &descriptorpb.FieldDescriptorProto{Name: proto.String(x.Name), Number: proto.Int32(x.Num), Type: t.Enum(), TypeName: tn,
+		_, def := splitDefault(x.Kind)
+		fd.Extension = append(fd.Extension, &descriptorpb.FieldDescriptorProto{Name: proto.String(x.Name), Number: proto.Int32(x.Num), Type: t.Enum(), TypeName: tn, DefaultValue: def,
 			Label: descriptorpb.FieldDescriptorProto_LABEL_OPTIONAL.Enum(), Extendee: proto.String("." + pkg + "." + strings.TrimPrefix(x.Card, "ext:")), JsonName: proto.String(lowerCamel(x.Name))})
 	}
 	return fd
 }
 
+// splitDefault: a kind may carry a proto2 default value, "int32=7", "string=abc", "enum:Color=COLOR_V2"
+func splitDefault(kind string) (string, *string) {
+	if i := strings.Index(kind, "="); i >= 0 {
+		return kind[:i], proto.String(kind[i+1:])
+	}
+	return kind, nil
+}
+
 func (s *Schema) typeRef(kind, pkg string) (descriptorpb.FieldDescriptorProto_Type, *string) {
+	kind, _ = splitDefault(kind)
 	switch {
 	case strings.HasPrefix(kind, "msg:"):
 		return descriptorpb.FieldDescriptorProto_TYPE_MESSAGE, proto.String("." + pkg + "." + strings.TrimPrefix(kind, "msg:"))
@@ -187,6 +197,7 @@ func (s *Schema) message(m *M, scope, pkg string) *descriptorpb.DescriptorProto 
 		default:
 			t, tn := s.typeRef(f.Kind, pkg)
 			fdp.Type, fdp.TypeName = t.Enum(), tn
+			_, fdp.DefaultValue = splitDefault(f.Kind)
 			switch {
 			case f.Card == "req":
 				fdp.Label = descriptorpb.FieldDescriptorProto_LABEL_REQUIRED.Enum()
@@ -220,7 +231,8 @@ func (s *Schema) message(m *M, scope, pkg string) *descriptorpb.DescriptorProto 
 	}
 	for _, x := range m.Ext {
 		t, tn := s.typeRef(x.Kind, pkg)
-		ext := &descriptorpb.FieldDescriptorProto{Name: proto.String(x.Name), Number: proto.Int32(x.Num), Type: t.Enum(), TypeName: tn,
+		_, def := splitDefault(x.Kind)
+		ext := &descriptorpb.FieldDescriptorProto{Name: proto.String(x.Name), Number: proto.Int32(x.Num), Type: t.Enum(), TypeName: tn, DefaultValue: def,
 			Label: descriptorpb.FieldDescriptorProto_LABEL_OPTIONAL.Enum(), Extendee: proto.String("." + pkg + "." + strings.TrimPrefix(x.Card, "ext:")), JsonName: proto.String(lowerCamel(x.Name))}
 		if strings.HasSuffix(x.Name, "_rep") {
 			ext.Label = descriptorpb.FieldDescriptorProto_LABEL_REPEATED.Enum()
